@@ -435,8 +435,13 @@ def evaluate_payload_template(input, context, template):
                     "States.ArrayUnique failed, arg[0] is not an array."
                 )
 
-            # Use set to get unique values from input then use list to convert back
-            return list(set(input_array))
+            # Remove duplicates preserving the order of first occurrence
+            try:
+                return list(dict.fromkeys(input_array))
+            except TypeError as e:
+                raise IntrinsicFailure(
+                    "States.ArrayUnique failed with {}.".format(e)
+                )
 
         def asl_intrinsic_Base64Encode(args):
             if len(args) != 1:
